@@ -2348,6 +2348,173 @@ def stage_clash(ctx, env):
                 ctx.coverage["disagreements_checked"] += 1
 
 
+# ====================================================================== polynomial layer (util/poly.py, convert_to_poly)
+def nat_term_value(t):
+    """Value of a closed nat term (numerals, +, *, truncated -, Suc); None otherwise."""
+    if t.is_number():
+        return t.dest_number()
+    if t.is_plus() or t.is_times() or t.is_minus():
+        a, b = nat_term_value(t.arg1), nat_term_value(t.arg)
+        if a is None or b is None:
+            return None
+        return a + b if t.is_plus() else a * b if t.is_times() else max(0, a - b)
+    if t.is_comb("Suc", 1):
+        a = nat_term_value(t.arg)
+        return None if a is None else a + 1
+    return None
+
+
+def poly_shape(t, ty):
+    """How `convert_to_poly` of the type reads the top of t: (kind, children...) -- written from the
+    three functions' case lists, in their order; 'atom' for everything they hand to `singleton`."""
+    if t.is_var():
+        return ("atom",)
+    if t.is_number():
+        return ("num", Fraction(t.dest_number()))
+    if t.is_plus():
+        return ("add", t.arg1, t.arg)
+    if ty == "nat":
+        if t.is_times():
+            return ("mul", t.arg1, t.arg)
+        if t.is_minus():
+            a, b = nat_term_value(t.arg1), nat_term_value(t.arg)
+            if a is not None and b is not None:
+                return ("num", Fraction(max(0, a - b)))
+        return ("atom",)
+    if t.is_minus():
+        return ("sub", t.arg1, t.arg)
+    if t.is_uminus():
+        return ("neg", t.arg)
+    if t.is_times():
+        return ("mul", t.arg1, t.arg)
+    if ty == "real":
+        if t.is_divides():
+            c = t.arg.dest_number() if t.arg.is_number() else None
+            if c:
+                return ("scale", Fraction(1) / Fraction(c), t.arg1)
+            return ("atom",)
+        if t.is_nat_power():
+            k = nat_term_value(t.arg)
+            if k is not None:
+                return ("pow", t.arg1, k)
+    return ("atom",)
+
+
+def poly_atoms(t, ty, acc):
+    sh = poly_shape(t, ty)
+    if sh[0] == "atom":
+        acc.add(t)
+    else:
+        for c in sh[1:]:
+            if hasattr(c, "is_comb"):
+                poly_atoms(c, ty, acc)
+    return acc
+
+
+def pexp_of(t, ty, ranks):
+    sh = poly_shape(t, ty)
+    k = sh[0]
+    if k == "atom":
+        return ["at", ranks[t]]
+    if k == "num":
+        return ["num", sh[1].numerator, sh[1].denominator]
+    if k == "pow":
+        return ["pow", pexp_of(sh[1], ty, ranks), sh[2]]
+    if k == "scale":
+        return ["scale", sh[1].numerator, sh[1].denominator, pexp_of(sh[2], ty, ranks)]
+    return [k] + [pexp_of(c, ty, ranks) for c in sh[1:]]
+
+
+def raw_pexp(t, ranks):
+    """The term `from_poly` builds, read structurally (atoms, numerals, +, *, atom ^ numeral)."""
+    if t in ranks:
+        return ["at", ranks[t]]
+    if t.is_number():
+        c = Fraction(t.dest_number())
+        return ["num", c.numerator, c.denominator]
+    if t.is_plus():
+        return ["add", raw_pexp(t.arg1, ranks), raw_pexp(t.arg, ranks)]
+    if t.is_times():
+        return ["mul", raw_pexp(t.arg1, ranks), raw_pexp(t.arg, ranks)]
+    if t.is_nat_power() and t.arg.is_number():
+        return ["pow", raw_pexp(t.arg1, ranks), t.arg.dest_number()]
+    raise KeyError(str(t))
+
+
+def poly_to_sexp(p, ranks):
+    out = []
+    for m in p.monomials:
+        c = Fraction(m.coeff)
+        out.append([[[ranks[b], e] for b, e in m.factors], c.numerator, c.denominator])
+    return out
+
+
+def stage_corr_poly(ctx, env):
+    """`convert_to_poly` (nat, int, real) and `from_poly` (int, real) against the Lean model of
+    util/poly.py on every expression of the cancellation generator (plus plain random ones): the
+    monomial LIST is compared -- order, factors, powers, exact coefficients."""
+    mods = {"nat": env.nat, "int": env.integer, "real": env.real}
+    n = ctx.scale(120, 2500)
+    cases, lines = [], []
+    for ty in ("nat", "int", "real"):
+        rng = ctx.rng("corr/poly/" + ty)
+        for it in range(n):
+            r = it % 4
+            if r == 3 and ty == "nat":
+                a = rng.choice(gen_nat_opaque(rng))
+            elif r == 2:
+                a = gen_arith(rng, ty, rng.randint(1, 4), ops={"nat": "+++***S", "int": "+++***-n^", "real": "+++***-n^/"}[ty],
+                              atoms=(ty != "int"))
+            else:
+                a = gen_cancel(rng, ty, rng.randint(1, 4))
+            try:
+                t = to_term(env, a, ty)
+            except Exception:  # noqa
+                continue
+            atoms = poly_atoms(t, ty, set())
+            ranks = {x: i for i, x in enumerate(env.term_ord.sorted_terms(list(atoms)))}
+            expr = pexp_of(t, ty, ranks)
+            ops = ["topoly"]
+            # int: from_mono writes x ^ n, which int's convert_to_poly reads as an ATOM (it has no power
+            # case); a term that already has such an atom makes the reading of the result ambiguous
+            if ty == "real" or (ty == "int" and not any(x.is_nat_power() for x in atoms)):
+                ops.append("frompoly")
+            if ty == "real":
+                ops.append("realnorm")
+            for op in ops:
+                try:
+                    with time_limit(30):
+                        p = mods[ty].convert_to_poly(t)
+                        if op == "topoly":
+                            impl = sexp.dumps(poly_to_sexp(p, ranks))
+                        elif op == "frompoly":
+                            back = mods[ty].from_poly(p)
+                            impl = sexp.dumps(raw_pexp(back, ranks))
+                        else:   # the conversion itself: its right side is from_poly(convert_to_poly t)
+                            back = env.real.real_norm_conv().get_proof_term(t).prop.rhs
+                            impl = sexp.dumps(raw_pexp(back, ranks))
+                except Timeout:
+                    continue
+                except Exception as e:  # noqa
+                    impl = "raise:" + type(e).__name__
+                cases.append((ty, op, t, impl))
+                lines.append(sexp.dumps(["frompoly" if op == "realnorm" else op, expr]))
+    out = ctx.lean_driver(EXE, lines, timeout=1200) if lines else []
+    if out is None:
+        ctx.broken("correspondence:c10:driver", "model driver unavailable")
+        return
+    nd = 0
+    for (ty, op, t, impl), m in zip(cases, out):
+        ctx.case(("poly", ty, op, str(tj(t))), nontrivial=not t.is_var())
+        agree = impl.replace(" ", "") == m.replace(" ", "")
+        ctx.count("corr:%s:%s:%s" % (op, ty, "agree" if agree else "DISAGREE"))
+        if not agree:
+            nd += 1
+            if nd <= 3:
+                ctx.broken("correspondence:c10:%s" % op, "%s %s of %s: impl=%s model=%s" % (ty, op, t, impl[:300], m[:300]))
+                ctx.coverage["disagreements_checked"] += 1
+
+
 # ====================================================================== entry points
 def run(ctx):
     ctx.coverage["rule"] = (
@@ -2362,9 +2529,9 @@ def run(ctx):
         "schematic), nested binders with equal names, a rule's left side under the binder; for abs/top/bottom/top_sweep/sub/"
         "beta_norm conversions, sort_conj/sort_disj and int_norm_conv; judged by the oracle and (combinators) by the Lean model, whose "
         "codec opens binders with names of its own.")
-    ok = ctx.lean_props(["Holpy.C10.Props"], exes=[EXE])
+    ok = ctx.lean_props(["Holpy.C10.Props", "Holpy.C10.PropsPoly"], exes=[EXE])
     if ctx.tier == "thorough" and ok:
-        ctx.lean_check_modules(["Holpy.C10.Props"])
+        ctx.lean_check_modules(["Holpy.C10.Props", "Holpy.C10.PropsPoly"])
     ctx.coverage["trusted_base"] += [
         "harness/props/c10.py: generators, term codec, ranking of members/atoms by the implementation's own term_ord.fast_compare",
         "kernel.theory.check_proof is the judge of 'checker-accepted' (check_level=0: every macro with an expansion is expanded)",
@@ -2386,6 +2553,7 @@ def run(ctx):
     stage_clash(ctx, env)
     stage_corr_acnorm(ctx, env)
     stage_corr_conv(ctx, env)
+    stage_corr_poly(ctx, env)
     for s in (stage_corr_natnorm,):
         s(ctx, env)
     ctx.log("correspondence done")
@@ -2515,31 +2683,40 @@ def replay(ctx, rp):
 
 
 MANIFEST = {
-    "text": "PROVED IN LEAN (about executable models tied to the code by differential runs): conv_lhs / conv_lhs_combinators / "
-            "conv_lhs_needs_hypothesis -- every nesting of then/else/try/combination/arg/fun/arg1/binop/abs/sub/repeat/bottom/top/"
-            "top_sweep returns an equation whose left side is the input; conjNorm_canonical, disjNorm_canonical, conjNorm_idem, "
-            "disjNorm_idem, conjNorm_sound, disjNorm_sound -- logic.conj_norm / disj_norm are canonical (same member set => same "
-            "normal form), idempotent and equivalence preserving under any strict total order: these two are the ONLY normalisers "
-            "proved canonical in Lean. For the nat polynomial normaliser (data.nat.norm_full) Lean proves norm_sound (value "
-            "preserved in N), norm_idem_partial (normal-form shapes are fixed points) and norm_canonical_partial (Suc x = x + 1, "
-            "x + 0, x * 0 only); its canonicity under associativity / commutativity / distribution is NOT proved. "
-            "COMPARED AGAINST THE INDEPENDENT EVALUATOR ONLY (exact-rational polynomial arithmetic written in the harness, x^0 = 1 "
-            "for every x): canonicity, idempotence and separation of data.nat.norm_full, data.integer.simp_full / int_norm_conv, "
-            "data.real.real_norm_conv, and the decisions of the nat_norm, real_norm and int_eq_macro macros and of int_norm_eq, on "
-            "cancellation-rich expressions (t - t, t + (-t), a*b - b*a, t*0, 0*t as summands, factors and power bases with exponents "
-            "0/1/2 and n - n; constants 0 and 1 everywhere) against an independently rendered copy of their polynomial (same "
-            "normal form demanded; a refusal is a violation) and a perturbed polynomial (different normal form demanded); "
-            "proplogic.norm_full / sort_conj / sort_disj on member sets (oracle only). Fast evaluation against checked proof term: "
-            "for every Conv class overriding eval and for the nat_norm macro, on inputs where either one succeeds ('eval succeeds, "
-            "proof term raises' is a violation); real_norm is trusted (level 0, no proof term) and judged by the evaluator alone. "
-            "Every Conv subclass of the six modules is run on generated terms of its domain and judged by the real proof checker "
-            "(equation, lhs exact, hypotheses within the supplied conditions); binder-traversing conversions on de Bruijn inputs "
-            "with clashing bound names.",
-    "note": "The accepted/refused histogram of every decision procedure is in evidence coverage.decision_procedures. Not claimed: "
-            "nat subtraction and nat powers are atoms of norm_full (also between numerals); integer powers only with variable base "
-            "and exponent >= 1; real powers with non-natural exponents; t / t. The model's equations carry no hypotheses. Trusted: "
-            "Lean kernel + propext/Classical.choice/Quot.sound, the generators and the evaluator (150 lines), "
-            "kernel.theory.check_proof as the acceptance judge (level-0 macros trusted, see C05), term_ord.fast_compare as the order (C03).",
+    "text": "PROVED IN LEAN (about executable models tied to the code by differential runs). "
+            "(1) Combinators: conv_lhs / conv_lhs_combinators / conv_lhs_needs_hypothesis -- every nesting of then/else/try/"
+            "combination/arg/fun/arg1/binop/abs/sub/repeat/bottom/top/top_sweep returns an equation whose left side is the input. "
+            "(2) logic.conj_norm / disj_norm: conjNorm_canonical, disjNorm_canonical, conjNorm_idem, disjNorm_idem, conjNorm_sound, "
+            "disjNorm_sound (any strict total order). "
+            "(3) The polynomial layer util/poly.py (collect_pairs, Monomial, Polynomial +, *, scale, neg, -, **, compare_fst order) "
+            "and convert_to_poly / from_poly of data/nat.py, data/integer.py, data/real.py on the fragment {atoms, numerals, +, *, "
+            "unary/binary minus, ^ constant nat, scaling by a constant}: poly_eval_sound (value preserved in every commutative ring, "
+            "x^0 = 1), poly_wellformed (results are sorted by compare_fst, no zero coefficient, canonical monomials), poly_canonical "
+            "(expressions related by the congruence generated by the commutative-ring axioms -- assoc, comm, distrib, 0/1 laws, "
+            "x + (-x) = 0, definitions of minus/scale, numeral arithmetic, x^0 = 1, x^(k+1) = x^k * x -- get the IDENTICAL monomial "
+            "list), norm_respects_add_comm/_add_assoc/_mul_comm/_mul_assoc/_distrib/_zero/_one/_neg_cancel, ringEq_sound, "
+            "poly_from_to and poly_norm_idem (convert_to_poly (from_poly p) = p; from_poly o convert_to_poly is stable). "
+            "(4) The REAL normaliser real_norm_conv (= from_poly o convert_to_poly) and the real_norm macro's test: real_norm_sound, "
+            "real_norm_canonical, real_norm_idem -- on this fragment the property's 'equal as polynomials => identical normal "
+            "forms, normalising a normal form changes nothing' is a theorem about the model, and the model is compared with the "
+            "real convert_to_poly / from_poly / real_norm_conv on every expression of the cancellation generator (monomial LIST: "
+            "order, factors, powers, exact coefficients). "
+            "(5) The nat Conv normaliser data.nat.norm_full (the one nat_norm uses): norm_sound, norm_idem_partial, "
+            "norm_canonical_partial only -- its canonicity under assoc/comm/distrib and isNF(norm t) are NOT proved (it does not go "
+            "through util/poly.py); the integer Conv normaliser (simp_full / int_norm_conv) is NOT modelled. Both are compared "
+            "against the independent exact-rational evaluator on cancellation-rich pairs every run, as are the decisions of "
+            "nat_norm, real_norm, int_eq_macro and int_norm_eq; proplogic.norm_full / sort_conj / sort_disj on member sets (oracle "
+            "only). Fast evaluation against checked proof term for every Conv class overriding eval and for nat_norm ('eval "
+            "succeeds, proof term raises' is a violation). Every Conv subclass of the six modules is run on generated terms of "
+            "its domain and judged by the real proof checker; binder-traversing conversions on de Bruijn inputs with clashing names.",
+    "note": "poly_canonical is for the inductively defined congruence; the semantic form (equal value under every valuation over an "
+            "infinite integral domain => identical lists) is NOT proved. Outside the modelled fragment: of_nat, division by "
+            "non-constants, real powers, nat truncated subtraction (atoms). int: from_poly writes powers that int's convert_to_poly "
+            "reads as atoms, so from_poly o convert_to_poly is only claimed stable for reals (and ints without power atoms). "
+            "Atoms are ranks under term_ord.fast_compare (C03) -- the model's order on atoms is the order on ranks. "
+            "The accepted/refused histogram of every decision procedure is in evidence coverage.decision_procedures. The "
+            "combinator model's equations carry no hypotheses. Trusted: Lean kernel + propext/Classical.choice/Quot.sound, the "
+            "generators and the evaluator, kernel.theory.check_proof as the acceptance judge (level-0 macros trusted, see C05).",
     "design_ref": "DESIGN.md 4/C10, 8.6, 8.10",
 }
 FINDINGS = [
